@@ -86,9 +86,9 @@ func (c10) Gen(r *sim.Rand, c *sim.Case, tier string) {
 		// the document becomes a template with an image placeholder; renders get different pictures
 		ops = append(ops, sim.Op{K: "para", S: []sim.Str{"{{#image pic}}"}})
 		shared := btoiP(r.Chance(0.35)) // a mail merge: one data object with one logo for both renders
-		first := []int{r.Intn(3), r.Range(2, 30), r.Range(2, 30), 555000}
+		first := world.TplImageSpec(r, []int{r.Intn(3), r.Range(2, 30), r.Range(2, 30), 555000})
 		for d := 1; d <= 2; d++ {
-			pic := []int{r.Intn(3), r.Range(2, 30), r.Range(2, 30), 555000 + d}
+			pic := world.TplImageSpec(r, []int{r.Intn(3), r.Range(2, 30), r.Range(2, 30), 555000 + d})
 			if shared == 1 {
 				pic = first
 			}
@@ -185,7 +185,10 @@ func (c10) Exec(c *sim.Case, env *Env) []sim.Violation {
 			cp := append([]c10pic{}, model[op.Int(0)]...)
 			if d := world.ParseTData(op.Str(0)); d != nil && w.Extra[fmt.Sprintf("c10ph%d", op.Int(0))] == true {
 				if b := d.ImageBytes("pic"); b != nil {
-					cp = append(cp, c10pic{hash: sim.Digest(b)})
+					// the placeholder's picture: the bytes given, at the size its configuration asks for (pixel size without one)
+					pic := d.Images["pic"]
+					wmm, hmm := d.ImageMM("pic")
+					cp = append(cp, c10pic{hash: sim.Digest(b), alt: d.ImageAlt("pic"), pw: pic[1], ph: pic[2], mode: d.ImageMode("pic"), wmm: wmm, hmm: hmm, extent: true})
 				}
 			}
 			model[ds.Slot] = cp
